@@ -30,6 +30,7 @@ Requests
                                         r generation runs into one (initially empty) directory, models are opaque words;
                                         query = `cls <dotted module> <dotted class path>` | `via <dotted package> <attr>`
                                         → per query the model word or `none`
+  `segments <n> <word>`                 the string literals `filter_pickle` emits for the text → `<segment>*` | `-`
 Errors: `value` `type` `overflow` `other`; outside the modelled domain the answer is `unmodelled`.
 -/
 open NunavutVerif NunavutVerif.PyObj NunavutVerif.PyReflect NunavutVerif.Proto
@@ -314,6 +315,10 @@ def answer (line : String) : String :=
       | some out => if out.isEmpty then "-" else " ".intercalate out
       | none => "bad-op"
     | _ => "bad-op"
+  | ["segments", n, w] =>
+    match n.toNat? with
+    | some n => let out := (segments n w.toList).map String.ofList; if out.isEmpty then "-" else " ".intercalate out
+    | none => "bad-op"
   | "hasty" :: s :: r =>
     match parseBool s, parseTy fuel r with
     | some s, some (t, r) =>
